@@ -178,6 +178,14 @@ class StateDom(object):
         if isinstance(e, (ast.List, ast.Tuple, ast.Set)):
             vals = [self.ev(x, env, frame) for x in e.elts]
             return vals
+        if isinstance(e, ast.UnaryOp) and isinstance(e.op, (ast.USub,
+                                                             ast.UAdd)):
+            v = self.ev(e.operand, env, frame)
+            if v is RAISES:
+                return RAISES
+            if _num(v):
+                return -v if isinstance(e.op, ast.USub) else v
+            return UNK
         if isinstance(e, ast.UnaryOp) and isinstance(e.op, ast.Not):
             t = self.truth(self.ev(e.operand, env, frame))
             if t is RAISES:
